@@ -1,6 +1,6 @@
 (* C15 — Reported automaton statistics are truthful. *)
 From DV Require Import Model.Base Model.Nfa Model.BwBuild Model.BwSearch Model.Api Model.Spec
-     Model.Cert Proofs.StatsProps.
+     Model.Cert Model.Utf8 Model.CwBuild Proofs.StatsProps Proofs.TrieInv Proofs.BuildTrie.
 Local Open Scope N_scope.
 
 (* For a byte-wise automaton that passes the certificate checker, and whose reported state count
@@ -33,6 +33,32 @@ Proof.
   apply N.leb_le in H. unfold bw_heap_bytes. lia.
 Qed.
 Print Assumptions bw_heap_bound.
+
+(* Universal, about the BUILDERS (trie invariant, Proofs/TrieInv.v): for EVERY pattern sequence of
+   total length below 2^30 labels that construction accepts, under every match kind and setting, the
+   state count the automaton reports is 1 + the number of distinct non-empty prefixes of the
+   registered patterns: all patterns, or under leftmost-first the effective ones (those with no
+   earlier-registered proper prefix).  Prefixes are byte strings for the byte-wise variant and
+   character strings for the character-wise one. *)
+Theorem bw_num_states_universal :
+  forall (V : Type) k nfb (pvs : list (list N * V)) A, 4 * total_len V pvs <= U32_MAX - 1 ->
+    bw_build_with_values V k nfb pvs = Ok A ->
+    bw_num_states A = 1 + N.of_nat (length (distinct_nonempty_prefixes V (regd V k pvs))).
+Proof. intros V k nfb pvs A H HA. exact (proj1 (proj2 (bw_build_ok_lemma V k nfb pvs A H HA))). Qed.
+Print Assumptions bw_num_states_universal.
+
+Theorem cw_num_states_universal :
+  forall (V : Type) k nfb (pvs : list (list N * V)) A, 4 * total_len V pvs <= U32_MAX - 1 ->
+    cw_build_with_values V k nfb pvs = Ok A ->
+    cw_num_states A = 1 + N.of_nat (length (distinct_nonempty_prefixes V (regd V k pvs))).
+Proof. intros V k nfb pvs A H HA. exact (proj1 (proj2 (cw_build_ok_lemma V k nfb pvs A H HA))). Qed.
+Print Assumptions cw_num_states_universal.
+
+Theorem registered_patterns :
+  forall (V : Type) (pvs : list (list N * V)),
+    regd V LeftmostFirst pvs = effective V pvs /\ regd V LeftmostLongest pvs = pvs /\ regd V Standard pvs = pvs.
+Proof. intros V pvs. repeat split. Qed.
+Print Assumptions registered_patterns.
 
 Definition ex_pvs : list (list N * Z) :=
   [([98; 99; 100], 7%Z); ([97; 98], 8%Z); ([97], 9%Z); ([98], 7%Z); ([97; 98; 99], 1%Z)].
